@@ -261,5 +261,41 @@ CLAIMS = {
           '(bash for ksh) on a sample. Durations outside 0..2^40 (in-flight -1) are compared with the model but not judged.',
   'technique': 'same model/extraction/fixtures as C05; thresholds and comparison operators regenerated so that changing them breaks a proof; byte-exact correspondence + extracted oracles',
  },
+ 'C08': {
+  'text': 'Coq theorems (closed under the global context), for every environment and every table: config_parse accepts a text iff it lexes without complaint into the spelling of a list of entries '
+          'that conforms to the table (keywords of the mode only, values of the documented shape, non-repeatable variables met while undefined, users/'
+          'directories existing after substitution, globs not failing, time-outs fitting an int in seconds, steps with a command, required variables '
+          'defined) - both directions, all productions incl. regress options and canvas steps, with the dictionary defined (C08_accept_iff_conforms*). '
+          'The regenerated tables equal the hand-transcribed man-page tables up to row order for robsd/cross/ports/regress; canvas has robsddir in addition '
+          '(refuted+partial, known finding). Every rejection exits 1, prints nothing on stdout and leaves a diagnostic naming the file (C08_reject_names_file_holds_now, '
+          'for the source as repaired by 78f946e; witness theorem for the previous body kept). Values: first definition wins, default of the matching row otherwise, lists '
+          'joined by single spaces, booleans 1/0, time-outs in seconds; for an accepted configuration every plain keyword (all but regress-user, '
+          'regress-timeout, robsddir) equals its first defining entry whatever other entries surround it; an entry writes only its own names. rdomain: '
+          'k-th reference = 11 + k mod 245 and consecutive references differ, for every k (C08_rdomain_cycle_holds_now, for the source as repaired by c0e596d; '
+          'witness 255,11,11,12 for the previous body kept).',
+  'note': 'Proved about the Gallina model (Conf/ConfDefs.v) for all tables/environments; instantiated with tables regenerated from conf*.c, conf-token.h, mode.h '
+          '(t_conf.py) and, for the oracle, with DocSpec tables. NOT proved: invariance of conformance under reordering of table rows (the statement is about the '
+          'regenerated tables; canon(Gen)=Doc is a separate theorem and the oracle runs on Doc tables), value persistence for regress-user/regress-timeout/robsddir, '
+          'absence of C-level traps (model flag c_abort). Observed only: model = robsd-config on generated cases (exit, stdout, complete diagnostic sequence). '
+          'Assumed: stat/getpwnam/glob/fnmatch(literal*literal)/getenv/sysconf/if_group_addr as environment record, compiler overflow builtins, C locale ctype, '
+          '512-byte diagnostic buffer not exceeded; DocSpec is a hand transcription (required = occurs in the page\'s example; crossdir/chroot/ports-dir unchecked strings). '
+          'Two genuine defects found by this check were repaired (fix: commits c0e596d, 78f946e); known finding: canvas-accepts-undocumented-robsddir.',
+  'technique': 'Coq 8.16: executable model, declarative entry grammar, soundness/completeness by induction on fuel/entries, invariant sections over the interpolation '
+               'machinery, table equalities by vm_compute; translator t_conf.py (anchored regexes, two recognised variants for rdomain and for the diagnostic path); extraction + '
+               'process-level differential testing with environment queries resolved against the real file system; oracle = reader on documented tables.',
+ },
+ 'C10': {
+  'text': 'Coq theorems (closed under the global context): listing lines carry consecutive numbers from the offset; -o k (1<=k<=N) prints exactly the suffix of the full listing starting at step k, k>N is "offset too large"; '
+          'interpolation changes neither names, flags nor order; robsd/cross/ports list exactly the static table whose de-duplicated names are the documented steps, end last; '
+          'regress lists the documented steps around the configured tests: after mount those of ${regress} that run in parallel (switch on and no no-parallel option on any '
+          'entry of that path) in the order written and flagged, then the others in the order written, none parallel when parallel no - stated on the configuration state and, '
+          'through C08, on the entries of the accepted text; canvas lists the step entries in the order written with their flags, then end; every listed name is found by '
+          'find_step in the same schedule; commands of script steps start with sh; a canvas command may resolve to an empty argv (refuted with witness, known finding).',
+  'note': 'Proved about the model (Conf/SchedDefs.v on the C08 model); step tables, argv template, placeholder regenerated by t_conf.py, which also compares the text of '
+          'config_robsd_regress_get_steps/is_parallel/config_default_get_steps/the listing loop with the transcribed form (a harmless edit there is reported as a broken tie). '
+          'Observed: robsd-step -L at many offsets and robsd-exec on every listed name against stub scripts / the resolved argv. Not modelled: fork/exec/wait (C06/C07). '
+          'Known finding: listed-step-empty-command.',
+  'technique': 'Coq theorems by induction/computation, entry-level tracking lemmas shared with C08, regenerated step tables, extracted oracle over parsed listings told what the generator configured, differential testing.',
+ },
 }
 NOT_APPLICABLE = {p: PENDING for p in ['C%02d' % i for i in range(1, 21)] if p not in CLAIMS}
